@@ -183,73 +183,75 @@ static void with_watchdog(long hang_code, Fn &&fn) {
 }
 
 struct Interval {
+    static constexpr int N = 3;                 // up to three interval generators with independent stop sources
     scheduler sch;
-    std::stop_source src;
-    std::optional<generator<std::size_t>> gen;
-    std::unique_ptr<future<std::size_t>> tick;
-    bool finished = false;
+    std::stop_source src[N];
+    std::optional<generator<std::size_t>> gen[N];
+    std::unique_ptr<future<std::size_t>> tick[N];
 
-    long tick_status() {
-        if (!tick) return 0;
-        if (!tick->ready()) return 0;
-        return tick->_state == future_common::State::not_value ? 2 : 1;
+    long tick_status(int g) {
+        if (!tick[g]) return 0;
+        if (!tick[g]->ready()) return 0;
+        return tick[g]->_state == future_common::State::not_value ? 2 : 1;
     }
-    void emit(long kind) { vh::print_obs({0, kind, (long)sch._scheduled.size()}); }
+    // status, result of the call, array size, state of every generator's tick future
+    void emit(long kind) {
+        std::vector<long> v{0, kind, (long)sch._scheduled.size()};
+        for (int g = 0; g < N; g++) v.push_back(tick_status(g));
+        vh::print_obs(v);
+    }
 
     void exec(const std::vector<long> &op) {
-        if (op.size() != 1) { vh::print_obs({1}); return; }
+        if (op.empty() || op.size() > 2 || op[0] < 1 || op[0] > 4) { vh::print_obs({1}); return; }
+        long gi = op.size() == 2 ? op[1] : 0;
+        if (gi < 0 || gi >= N) { vh::print_obs({1}); return; }
+        int g = (int)gi;
         switch (op[0]) {
             case 1:
-                if (gen) { vh::print_obs({1}); return; }
-                gen.emplace(sch.interval(std::chrono::hours(1), src.get_token()));
+                if (gen[g]) { vh::print_obs({1}); return; }
+                gen[g].emplace(sch.interval(std::chrono::hours(1), src[g].get_token()));
                 emit(0);
                 return;
             case 2: {
-                if (!gen || finished || (tick && !tick->ready())) { vh::print_obs({1}); return; }
-                tick.reset();
-                tick.reset(new future<std::size_t>((*gen)()));
-                long s = tick_status();
-                if (s == 2) finished = true;
-                emit(s);
+                if (!gen[g] || tick_status(g) == 2 || (tick[g] && !tick[g]->ready())) { vh::print_obs({1}); return; }
+                tick[g].reset();
+                tick[g].reset(new future<std::size_t>((*gen[g])()));
+                emit(tick_status(g));
                 return;
             }
             case 3: {
-                long before = tick_status();
-                src.request_stop();
-                long after = tick_status();
-                if (after == 2) finished = true;
+                long before = tick_status(g);
+                src[g].request_stop();
+                long after = tick_status(g);
                 emit(after != before ? after : 0);
                 return;
             }
             case 4: {
-                long before = tick_status();
                 scheduler::expired e = sch.get_expired(std::chrono::system_clock::now() + std::chrono::hours(48));
                 long r = 0;
                 if (std::holds_alternative<scheduler::promise>(e)) {
                     std::get<scheduler::promise>(e)();
                     r = 1;
                 }
-                long after = tick_status();
-                (void)before;
-                if (after == 2) finished = true;
                 emit(r);
                 return;
             }
-            default:
-                vh::print_obs({1});
         }
     }
     ~Interval() {
         // a generator still sleeping must be woken before it can be destroyed
-        if (tick && !tick->ready()) {
-            with_watchdog(-998, [&] { src.request_stop(); });   // a self-deadlock here must not stall the whole run
-            for (int i = 0; i < 4 && !tick->ready(); i++) {
-                scheduler::expired e = sch.get_expired(tp_t::max());
-                if (std::holds_alternative<scheduler::promise>(e)) std::get<scheduler::promise>(e)();
-            }
+        for (int g = 0; g < N; g++) {
+            if (tick[g] && !tick[g]->ready())
+                with_watchdog(-998, [&] { src[g].request_stop(); });   // a self-deadlock here must not stall the whole run
         }
-        tick.reset();
-        gen.reset();
+        for (int i = 0; i < 4 * N; i++) {
+            bool pending = false;
+            for (int g = 0; g < N; g++) if (tick[g] && !tick[g]->ready()) pending = true;
+            if (!pending) break;
+            scheduler::expired e = sch.get_expired(tp_t::max());
+            if (std::holds_alternative<scheduler::promise>(e)) std::get<scheduler::promise>(e)();
+        }
+        for (int g = 0; g < N; g++) { tick[g].reset(); gen[g].reset(); }
     }
 };
 
